@@ -55,14 +55,20 @@ def register_cells(ctx: Ctx, rule: str) -> None:
         if v.path.exit == "raise":
             problems.append("register can raise")
             continue
-        stmts = [(i, s) for i, s in v.stmts()]
+        # locals naming a pure attribute chain (node_key = node.bridged_form) are substituted, their definitions are not stores of the register
+        stmts = [(i, s) for i, s in v.stmts() if not (isinstance(s, ast.Assign) and len(s.targets) == 1 and isinstance(s.targets[0], ast.Name)
+                                                       and all(isinstance(x, (ast.Attribute, ast.Name, ast.Load)) for x in ast.walk(s.value)))]
+
+        def sub(node, i):
+            return ast.unparse(v.canon(copy.deepcopy(node), i))
+
         incs = [(i, s) for i, s in stmts if isinstance(s, ast.AugAssign)]
-        if len(incs) != 1 or ast.unparse(incs[0][1].target) != cell or not isinstance(incs[0][1].op, ast.Add) or ast.unparse(incs[0][1].value) != "1" \
+        if len(incs) != 1 or sub(incs[0][1].target, incs[0][0]) != cell or not isinstance(incs[0][1].op, ast.Add) or ast.unparse(incs[0][1].value) != "1" \
                 or incs[0][0] != stmts[-1][0]:
             problems.append(f"a registration does not end with `{cell} += 1`")
         for i, s in stmts:
             if isinstance(s, ast.Assign):
-                t, val = ast.unparse(s.targets[0]), ast.unparse(s.value)
+                t, val = sub(s.targets[0], i), ast.unparse(s.value)
                 prem = v.premise(i, 0)
                 if t == f"self._registry[{nd}.bridged_form]" and val == "{}":
                     if not norm.implies(prem, ("not", ("atom", f"{nd}.bridged_form in self._registry"))):
